@@ -130,7 +130,7 @@ def state_check(sd, hist):
     # (after the seed and/or after each op but the last): all 2^len(hist) - 1 non-empty placements
     if hist:
         import itertools as _it
-        LIGHT = ["solve_energy", "rail_rep", "save", "diag"]
+        LIGHT = ["solve_energy", "save", "diag"]
         points = list(range(len(hist)))  # point j = just before hist[j]  (0 = right after the seed)
         for r in range(1, len(points) + 1):
             for place in _it.combinations(points, r):
@@ -168,7 +168,7 @@ def main(tier):
     run = Run(PROP, tier, replay)
     D, B = (2, 2) if tier == "quick" else (3, 2)
     if tier == "quick":  # budget 1 from every seed, budget 2 from the three richest seeds
-        st = e2.explore(run, list(e2.SEEDS), 2, 1, letters="RIMW", state_check=state_check, phase_ops=True, analysis_op=True)
+        st = e2.explore(run, list(e2.SEEDS), 2, 1, letters="RIM", state_check=state_check, phase_ops=True, analysis_op=True)
         st2 = e2.explore(run, ["rails"], 2, 2, letters="CI", state_check=state_check, phase_ops=True)
         for k in ("states", "transitions", "rejected", "states_via_cc", "states_via_dc", "state_checks"):
             st[k] += st2[k]
@@ -186,7 +186,7 @@ def main(tier):
     run.require(run.nontrivial > 100, "too few states reached through change/delete")
     _cw()
     return run.finish(
-        rule="E2: every distinct state (K_full) reached by histories of depth <= %d, budget <= %d from 8 seeds (quick: budget 1 from all 8 seeds over letters R,I,M,W and budget 2 from the rails seed over C,I) (edit + phase ops, re-adding deleted names, 3-input muxes, and a solve(energy=True) call in the middle of the history)%s; per state: reference edit semantics vs the structure read "
+        rule="E2: every distinct state (K_full) reached by histories of depth <= %d, budget <= %d from 8 seeds (quick: budget 1 from all 8 seeds over letters R,I,M and budget 2 from the rails seed over C,I) (edit + phase ops, re-adding deleted names, 3-input muxes, and a solve(energy=True) call in the middle of the history)%s; per state: reference edit semantics vs the structure read "
              "from the object (names, kinds, parameters, parent lists with PMux priority order, rails, groups, phase configs, system phases), all 8 reports succeed, and all reports equal "
              "(keyed, 1e-9) those of a fresh system built from that structure in canonical order -- for the plain history and for every placement of a solve(energy)/save/make_diag bundle between its ops (after the seed, between the ops). non-trivial = states first reached through change_comp / del_comp." % (
                  D, B, "" if tier == "quick" else "; plus depth 4, budget 1 over 3 letters from the mux and freed-index seeds"),
